@@ -182,10 +182,22 @@ theorem inv_create {s : State} (hi : Inv s) (kd : Kind) (m : Matcher) : Inv (ste
     have : j < s.ws.length := (List.getElem?_eq_some_iff.mp hw).1
     exact (List.getElem?_append_left this).trans hw
 
-theorem inv_message {s : State} (hi : Inv s) (μ : Msg) : Inv (step s (.message μ)) := by
-  simp only [step, deliver_eq]
-  refine ⟨?_, ?_, by simp [hi.e]⟩
+theorem inv_congr {s s' : State} (hi : Inv s) (hw : s'.ws = s.ws) (hq : s'.cbq = s.cbq) (he : s'.err = s.err) :
+    Inv s' := by
+  refine ⟨?_, ?_, by rw [he]; exact hi.e⟩
+  · intro k w hk
+    rw [hw] at hk; rw [hq]
+    exact hi.w k w hk
+  · intro j hj
+    rw [hq] at hj; rw [hw]
+    exact hi.q j hj
+
+/-- the completion loop keeps the invariant -/
+theorem inv_deliver {s s' : State} (hi : Inv s) (μ : Msg) (n : Nat)
+    (hws : s'.ws = s.ws.map (resolveW μ n)) (hcb : s'.cbq = s.cbq ++ cbsOf μ 0 s.ws) (he : s'.err = 0) : Inv s' := by
+  refine ⟨?_, ?_, he⟩
   · intro k w' hk
+    rw [hws] at hk; rw [hcb]
     simp only [List.getElem?_map] at hk
     cases hw : s.ws[k]? with
     | none => simp [hw] at hk
@@ -205,18 +217,30 @@ theorem inv_message {s : State} (hi : Inv s) (μ : Msg) : Inv (step s (.message 
       · simp only [resolveW, hh]
         exact h0.mono (fun h => List.mem_append_left _ h) (fun h => List.mem_append_left _ h)
   · intro j hj
+    rw [hcb] at hj; rw [hws]
     simp only [List.getElem?_map]
     rcases List.mem_append.mp hj with h | h
     · obtain ⟨w, hw, hd⟩ := hi.q j h
-      refine ⟨resolveW μ s.nmsg w, by simp [hw], ?_⟩
+      refine ⟨resolveW μ n w, by simp [hw], ?_⟩
       unfold resolveW
       split <;> simp_all
     · obtain ⟨j', w, hw, hh, hc⟩ := mem_cbsOf.mp h
       have := doneCbs_remove hc
       simp at this
       subst this
-      refine ⟨resolveW μ s.nmsg w, by simp [hw], ?_⟩
+      refine ⟨resolveW μ n w, by simp [hw], ?_⟩
       simp [resolveW, hh]
+
+theorem inv_finish {s : State} (hi : Inv s) (h : Nat) : Inv (step s (.finish h)) := by
+  simp only [step]
+  cases hh : s.hs[h]? with
+  | none => exact hi
+  | some hd =>
+    simp only
+    by_cases hdn : hd.done = true
+    · simp only [hdn, if_true]; exact hi
+    · simp only [hdn, deliver_eq]
+      exact inv_deliver hi hd.μ h rfl rfl (by simp [hi.e])
 
 theorem inv_awaitF {s : State} (hi : Inv s) (k : Nat) : Inv (step s (.awaitF k)) := by
   simp only [step]
@@ -391,7 +415,9 @@ theorem inv_step {s : State} (hi : Inv s) (op : Op) : Inv (step s op) := by
   cases op with
   | create kd m => exact inv_create hi kd m
   | awaitF k => exact inv_awaitF hi k
-  | message μ => exact inv_message hi μ
+  | arrive c μ => exact inv_congr hi rfl rfl rfl
+  | finish h => exact inv_finish hi h
+  | connState c b => exact inv_congr hi rfl rfl rfl
   | timeout k => exact inv_timeout hi k
   | cancelTask k => exact inv_cancelTask hi k
   | cancelFut k => exact inv_cancelFut hi k
@@ -432,28 +458,34 @@ theorem set_get {ws : List Waiter} {j k : Nat} {w x : Waiter} (hk : ws[k]? = som
   · subst h; left; simp [hlt]
   · right; simp [h, hk]
 
-/-- a waiter that exists stays, and evolves quietly unless the op is a message that hits it -/
+/-- the op is the completion loop of the (not yet completed) call `h` for message `μ` -/
+def IsFinish (s : State) (op : Op) (h : Nat) (μ : Msg) : Prop :=
+  op = .finish h ∧ ∃ hd, s.hs[h]? = some hd ∧ hd.done = false ∧ hd.μ = μ
+
+/-- a waiter that exists stays, and evolves quietly unless the op is a completion loop that hits it -/
 theorem step_get {s : State} (op : Op) {k : Nat} {w : Waiter} (hk : s.ws[k]? = some w) :
     ∃ w', (step s op).ws[k]? = some w' ∧
-      ((∃ μ, op = .message μ ∧ w' = resolveW μ s.nmsg w) ∨ ((∀ μ, op ≠ .message μ) ∧ Quiet w w')) := by
+      ((∃ h μ, IsFinish s op h μ ∧ w' = resolveW μ h w) ∨ Quiet w w') := by
   have hlt : k < s.ws.length := (List.getElem?_eq_some_iff.mp hk).1
   -- generic: the new list is `s.ws.set j x` with `Quiet` at j
-  have viaSet : ∀ (j : Nat) (wj x : Waiter), s.ws[j]? = some wj → Quiet wj x → (∀ μ, op ≠ .message μ) →
+  have viaSet : ∀ (j : Nat) (wj x : Waiter), s.ws[j]? = some wj → Quiet wj x → True →
       ∃ w', (s.ws.set j x)[k]? = some w' ∧
-        ((∃ μ, op = .message μ ∧ w' = resolveW μ s.nmsg w) ∨ ((∀ μ, op ≠ .message μ) ∧ Quiet w w')) := by
-    intro j wj x hj hq hne
+        ((∃ h μ, IsFinish s op h μ ∧ w' = resolveW μ h w) ∨ Quiet w w') := by
+    intro j wj x hj hq _
     rcases set_get (j := j) (x := x) hk with ⟨rfl, h⟩ | ⟨_, h⟩
     · rw [hk] at hj; cases hj
-      exact ⟨x, h, Or.inr ⟨hne, hq⟩⟩
-    · exact ⟨w, h, Or.inr ⟨hne, Quiet.rfl' w⟩⟩
-  have same : (∀ μ, op ≠ .message μ) → ∃ w', s.ws[k]? = some w' ∧
-      ((∃ μ, op = .message μ ∧ w' = resolveW μ s.nmsg w) ∨ ((∀ μ, op ≠ .message μ) ∧ Quiet w w')) :=
-    fun hne => ⟨w, hk, Or.inr ⟨hne, Quiet.rfl' w⟩⟩
+      exact ⟨x, h, Or.inr hq⟩
+    · exact ⟨w, h, Or.inr (Quiet.rfl' w)⟩
+  have same : True → ∃ w', s.ws[k]? = some w' ∧
+      ((∃ h μ, IsFinish s op h μ ∧ w' = resolveW μ h w) ∨ Quiet w w') :=
+    fun _ => ⟨w, hk, Or.inr (Quiet.rfl' w)⟩
   cases op with
   | create kd m =>
-    refine ⟨w, ?_, Or.inr ⟨by simp, Quiet.rfl' w⟩⟩
+    refine ⟨w, ?_, Or.inr (Quiet.rfl' w)⟩
     simp only [step]
     exact (List.getElem?_append_left hlt).trans hk
+  | arrive c μ => exact same trivial
+  | connState c b => exact same trivial
   | awaitF j =>
     simp only [step]
     cases hj : s.ws[j]? with
@@ -465,9 +497,16 @@ theorem step_get {s : State} (op : Op) {k : Nat} {w : Waiter} (hk : s.ws[k]? = s
       · simp only [hs]
         cases hf : wj.fut <;> simp only [State.put] <;>
           exact viaSet j wj _ hj (by unfold Quiet; simp_all) (by simp)
-  | message μ =>
-    simp only [step, deliver_eq, List.getElem?_map, hk]
-    exact ⟨_, rfl, Or.inl ⟨μ, rfl, rfl⟩⟩
+  | finish h =>
+    simp only [step]
+    cases hh : s.hs[h]? with
+    | none => exact same trivial
+    | some hd =>
+      simp only
+      by_cases hdn : hd.done = true
+      · simp only [hdn, if_true]; exact same trivial
+      · simp only [hdn, deliver_eq, List.getElem?_map, hk]
+        exact ⟨_, rfl, Or.inl ⟨h, hd.μ, ⟨rfl, hd, hh, by simpa using hdn, rfl⟩, rfl⟩⟩
   | timeout j =>
     simp only [step]
     cases hj : s.ws[j]? with
@@ -548,7 +587,17 @@ theorem step_new {s : State} (op : Op) {k : Nat} {w' : Waiter} (hn : s.ws[k]? = 
     cases hkl : k - s.ws.length with
     | zero => simp [hkl] at hk; subst hk; rfl
     | succ n => simp [hkl] at hk
-  | message μ => simp [step, deliver_eq, List.getElem?_map, hn] at hk
+  | arrive c μ => simp [step, hn] at hk
+  | connState c b => simp [step, hn] at hk
+  | finish h =>
+    simp only [step] at hk
+    cases hh : s.hs[h]? with
+    | none => simp [hh, hn] at hk
+    | some hd =>
+      simp only [hh] at hk
+      split at hk
+      · simp [hn] at hk
+      · simp [deliver_eq, List.getElem?_map, hn] at hk
   | awaitF j =>
     simp only [step] at hk
     cases hj : s.ws[j]? with
@@ -622,7 +671,7 @@ theorem step_stable {s : State} (hi : Inv s) (op : Op) {k : Nat} {w : Waiter} (h
       (w.out ≠ .none → w'.out = w.out) := by
   obtain ⟨w', hk', h⟩ := step_get op hk
   refine ⟨w', hk', ?_⟩
-  rcases h with ⟨μ, _, rfl⟩ | ⟨_, hm, hf, _, ho⟩
+  rcases h with ⟨h, μ, _, rfl⟩ | ⟨hm, hf, _, ho⟩
   · unfold resolveW
     by_cases hh : hit μ w = true
     · have := (hit_pending hh).1
@@ -651,8 +700,9 @@ theorem stable_foldl (ops : List Op) : ∀ (s : State) (k : Nat) (w : Waiter), I
 theorem first_match_foldl (ops : List Op) : ∀ (s : State) (k i : Nat) (w : Waiter), Inv s →
     (∀ w0, s.ws[k]? = some w0 → w0.fut ≠ .result i) →
     (ops.foldl step s).ws[k]? = some w → w.fut = .result i →
-    ∃ pre μ post w0, ops = pre ++ Op.message μ :: post ∧ (pre.foldl step s).nmsg = i ∧
-      (pre.foldl step s).ws[k]? = some w0 ∧ w0.fut = .pending ∧ w0.listed = true ∧ w0.m.matches μ = true := by
+    ∃ pre post hd w0, ops = pre ++ Op.finish i :: post ∧
+      (pre.foldl step s).hs[i]? = some hd ∧ hd.done = false ∧
+      (pre.foldl step s).ws[k]? = some w0 ∧ w0.fut = .pending ∧ w0.listed = true ∧ w0.m.matches hd.μ = true := by
   induction ops with
   | nil => intro s k i w _ h0 hk hr; exact absurd hr (h0 w hk)
   | cons op rest ih =>
@@ -666,18 +716,189 @@ theorem first_match_foldl (ops : List Op) : ∀ (s : State) (k i : Nat) (w : Wai
       | some w0 =>
         obtain ⟨w1', hk1', h⟩ := step_get op hs
         rw [hk1] at hk1'; cases hk1'
-        rcases h with ⟨μ, rfl, rfl⟩ | ⟨_, _, _, hres, _⟩
-        · by_cases hh : hit μ w0 = true
+        rcases h with ⟨h, μ, ⟨rfl, hd, hhd, hdn, rfl⟩, rfl⟩ | ⟨_, _, hres, _⟩
+        · by_cases hh : hit hd.μ w0 = true
           · have hp := hit_pending hh
             simp [resolveW, hh] at hr1
-            exact ⟨[], μ, rest, w0, rfl, hr1, hs, hp.1, hp.2.1, hp.2.2⟩
+            subst hr1
+            exact ⟨[], rest, hd, w0, rfl, hhd, hdn, hs, hp.1, hp.2.1, hp.2.2⟩
           · simp [resolveW, hh] at hr1
             exact absurd hr1 (h0 w0 hs)
         · exact absurd (hres i hr1) (h0 w0 hs)
     · have h0' : ∀ w1, (step s op).ws[k]? = some w1 → w1.fut ≠ .result i :=
         fun w1 h1 h2 => hA ⟨w1, h1, h2⟩
-      obtain ⟨pre, μ, post, w0, he, hn, hk0, hp⟩ := ih (step s op) k i w (inv_step hi op) h0' hk hr
-      exact ⟨op :: pre, μ, post, w0, by rw [he]; rfl, hn, hk0, hp⟩
+      obtain ⟨pre, post, hd, w0, he, hp⟩ := ih (step s op) k i w (inv_step hi op) h0' hk hr
+      exact ⟨op :: pre, post, hd, w0, by rw [he]; rfl, hp⟩
+
+/-! ### the calls of `on_message_received` -/
+
+/-- a call record never changes its message or connection, and `done` only goes up -/
+theorem step_hs {s : State} (op : Op) {h : Nat} {hd : Handling} (hh : s.hs[h]? = some hd) :
+    ∃ hd', (step s op).hs[h]? = some hd' ∧ hd'.μ = hd.μ ∧ hd'.c = hd.c ∧ (hd.done = true → hd'.done = true) := by
+  have hlt : h < s.hs.length := (List.getElem?_eq_some_iff.mp hh).1
+  have same : (step s op).hs = s.hs → ∃ hd', (step s op).hs[h]? = some hd' ∧ hd'.μ = hd.μ ∧ hd'.c = hd.c ∧
+      (hd.done = true → hd'.done = true) := fun he => ⟨hd, by rw [he]; exact hh, rfl, rfl, fun x => x⟩
+  cases op with
+  | arrive c μ =>
+    refine ⟨hd, ?_, rfl, rfl, fun x => x⟩
+    simp only [step]
+    exact (List.getElem?_append_left hlt).trans hh
+  | finish j =>
+    simp only [step]
+    cases hj : s.hs[j]? with
+    | none => exact ⟨hd, hh, rfl, rfl, fun x => x⟩
+    | some hj' =>
+      simp only
+      by_cases hdn : hj'.done = true
+      · simp only [hdn, if_true]; exact ⟨hd, hh, rfl, rfl, fun x => x⟩
+      · simp only [hdn]
+        rw [List.getElem?_set]
+        by_cases hjh : j = h
+        · subst hjh
+          rw [hh] at hj; cases hj
+          exact ⟨_, by simp [hlt], rfl, rfl, fun _ => rfl⟩
+        · exact ⟨hd, by simp [hjh, hh], rfl, rfl, fun x => x⟩
+  | create kd m => exact same rfl
+  | connState c b => exact same rfl
+  | awaitF j =>
+    apply same
+    simp only [step]
+    cases s.ws[j]? with
+    | none => rfl
+    | some wj => simp only; split; rfl; split <;> rfl
+  | timeout j =>
+    apply same
+    simp only [step]
+    cases s.ws[j]? with
+    | none => rfl
+    | some wj => simp only; split <;> rfl
+  | cancelTask j =>
+    apply same
+    simp only [step]
+    cases s.ws[j]? with
+    | none => rfl
+    | some wj => simp only; split <;> rfl
+  | cancelFut j =>
+    apply same
+    simp only [step]
+    cases s.ws[j]? with
+    | none => rfl
+    | some wj => rfl
+  | sendFails j c =>
+    apply same
+    simp only [step]
+    cases s.ws[j]? with
+    | none => rfl
+    | some wj => simp only; split <;> rfl
+  | cb =>
+    apply same
+    simp only [step]
+    cases s.cbq with
+    | nil => rfl
+    | cons c q =>
+      cases c with
+      | remove j => simp only; cases s.ws[j]? <;> rfl
+      | wake j => simp only; cases s.ws[j]? <;> rfl
+
+/-- a call record that appears in a step is the one `arrive` has just appended -/
+theorem step_hs_new {s : State} (op : Op) {h : Nat} {hd : Handling} (hn : s.hs[h]? = none)
+    (hh : (step s op).hs[h]? = some hd) : ∃ c μ, op = .arrive c μ ∧ h = s.hs.length ∧ hd = { μ := μ, c := c } := by
+  have hge : s.hs.length ≤ h := by simpa [List.getElem?_eq_none_iff] using hn
+  have absurdSame : (step s op).hs = s.hs → False := fun he => by rw [he, hn] at hh; cases hh
+  cases op with
+  | arrive c μ =>
+    simp only [step] at hh
+    rw [List.getElem?_append_right hge] at hh
+    cases hkl : h - s.hs.length with
+    | zero =>
+      simp [hkl] at hh
+      exact ⟨c, μ, rfl, by omega, hh.symm⟩
+    | succ n => simp [hkl] at hh
+  | finish j =>
+    exfalso
+    simp only [step] at hh
+    cases hj : s.hs[j]? with
+    | none => simp [hj, hn] at hh
+    | some hj' =>
+      simp only [hj] at hh
+      split at hh
+      · simp [hn] at hh
+      · have : (s.hs.set j { hj' with done := true })[h]? = none := by simp; exact hge
+        simp [this] at hh
+  | create kd m => exact (absurdSame rfl).elim
+  | connState c b => exact (absurdSame rfl).elim
+  | awaitF j =>
+    refine (absurdSame ?_).elim
+    simp only [step]
+    cases s.ws[j]? with
+    | none => rfl
+    | some wj => simp only; split; rfl; split <;> rfl
+  | timeout j =>
+    refine (absurdSame ?_).elim
+    simp only [step]
+    cases s.ws[j]? with
+    | none => rfl
+    | some wj => simp only; split <;> rfl
+  | cancelTask j =>
+    refine (absurdSame ?_).elim
+    simp only [step]
+    cases s.ws[j]? with
+    | none => rfl
+    | some wj => simp only; split <;> rfl
+  | cancelFut j =>
+    refine (absurdSame ?_).elim
+    simp only [step]
+    cases s.ws[j]? with
+    | none => rfl
+    | some wj => rfl
+  | sendFails j c =>
+    refine (absurdSame ?_).elim
+    simp only [step]
+    cases s.ws[j]? with
+    | none => rfl
+    | some wj => simp only; split <;> rfl
+  | cb =>
+    refine (absurdSame ?_).elim
+    simp only [step]
+    cases s.cbq with
+    | nil => rfl
+    | cons c q =>
+      cases c with
+      | remove j => simp only; cases s.ws[j]? <;> rfl
+      | wake j => simp only; cases s.ws[j]? <;> rfl
+
+/-- every call record stems from an `arrive` of exactly that message on exactly that connection, and its index is
+the number of messages received before it -/
+theorem arrival_foldl (ops : List Op) : ∀ (s : State) (h : Nat) (hd : Handling), s.hs[h]? = none →
+    (ops.foldl step s).hs[h]? = some hd →
+    ∃ pre post, ops = pre ++ Op.arrive hd.c hd.μ :: post ∧ (pre.foldl step s).hs.length = h := by
+  induction ops with
+  | nil => intro s h hd hn hh; simp only [List.foldl_nil] at hh; rw [hn] at hh; cases hh
+  | cons op rest ih =>
+    intro s h hd hn hh
+    cases h1 : (step s op).hs[h]? with
+    | none =>
+      obtain ⟨pre, post, he, hl⟩ := ih (step s op) h hd h1 hh
+      exact ⟨op :: pre, post, by rw [he]; rfl, hl⟩
+    | some hd1 =>
+      obtain ⟨c, μ, rfl, hlen, rfl⟩ := step_hs_new op hn h1
+      -- the record keeps μ and c for the rest of the run
+      have keep : ∀ (l : List Op) (t : State) (x : Handling), t.hs[h]? = some x →
+          ∃ y, (l.foldl step t).hs[h]? = some y ∧ y.μ = x.μ ∧ y.c = x.c := by
+        intro l
+        induction l with
+        | nil => intro t x hx; exact ⟨x, hx, rfl, rfl⟩
+        | cons o l ihl =>
+          intro t x hx
+          obtain ⟨x', hx', hm, hc, _⟩ := step_hs o hx
+          obtain ⟨y, hy, hm', hc'⟩ := ihl _ x' hx'
+          exact ⟨y, hy, hm'.trans hm, hc'.trans hc⟩
+      obtain ⟨y, hy, hm, hc⟩ := keep rest _ _ h1
+      simp only [List.foldl_cons] at hh
+      rw [hh] at hy; cases hy
+      refine ⟨[], rest, ?_, by simpa using hlen.symm⟩
+      simp only [List.nil_append]
+      rw [hm, hc]
 
 theorem wakeW_cbs_nil {q : List Cb} {k : Nat} {w : Waiter} (h : WInv q k w) : (wakeW k w).2 = [] := by
   unfold WInv at h
